@@ -122,11 +122,22 @@ def _expect_counts(tree):
     """Independent reading of a payload: number of distinct ids per list, or None if it cannot be walked."""
     try:
         out = {}
+        # a complete cache has all five sections; a payload that lost one is not the last written data
+        for key in ('buff_templates', 'fingerprint'):
+            tree[key]
+        bt = tree['buff_templates']
+        if not isinstance(bt, list):
+            # an empty container of another kind iterates like an empty list: nothing to store
+            if isinstance(bt, (dict, str)) and len(bt) == 0:
+                bt = []
+            else:
+                return None
         for key, name in (('types', 'types'), ('attrs', 'attrs'), ('effects', 'effects')):
             ids = set()
             for el in tree[key]:
                 ids.add(el[0])
             out[name] = len(ids)
+        out['buffs'] = len({el[0] for el in bt})
         return out
     except Exception:
         return None
@@ -151,7 +162,7 @@ def _judge(rep, h, exc, reference, what, case, tree=None):
         return 'complete'
     # payload: complete relative to the payload itself
     want = _expect_counts(tree)
-    got = {k: len(mem[k]) for k in ('types', 'attrs', 'effects')}
+    got = {k: len(mem[k]) for k in ('types', 'attrs', 'effects', 'buffs')}
     if want is None or want != got or not isinstance(tree, dict) or mem['fingerprint'] != G.canon(tree.get('fingerprint')):
         rep.violate('handler on %s holds part of the payload: stored %s, payload has %s, fingerprint %s' % (
             what, got, want, mem['fingerprint']), case)
